@@ -134,6 +134,70 @@ func init() {
 		l.pf("def clientAcceptLooksUpProposed : Nat := %d\n", indexesProposed)
 		l.pf("def clientAcceptMagicComparisons : Nat := %d\n", magicCmp)
 		l.pf("def clientAcceptFinishCalls : Nat := %d\n", finishCalls)
+		// integer conversions inside handleAcceptVersion (a narrowing of the accepted version would be one)
+		convs := 0
+		ast.Inspect(cf.Body, func(n ast.Node) bool {
+			if call, ok := n.(*ast.CallExpr); ok && len(call.Args) == 1 {
+				if id, ok := call.Fun.(*ast.Ident); ok {
+					switch id.Name {
+					case "uint8", "uint16", "uint32", "uint64", "uint", "int", "int8", "int16", "int32", "int64":
+						convs++
+					}
+				}
+			}
+			return true
+		})
+		l.pf("/-- integer type conversions in handleAcceptVersion -/\n")
+		l.pf("def clientAcceptIntConversions : Nat := %d\n", convs)
+		// field types of the handshake messages and refusal errors
+		l.pf("/-- (struct, field, Go type) of the handshake message / refusal error structs -/\n")
+		l.pf("def fieldTypes : List (String × String × String) := [\n")
+		firstFT := true
+		for _, f := range p.files {
+			for _, d := range f.Decls {
+				gd, ok := d.(*ast.GenDecl)
+				if !ok {
+					continue
+				}
+				for _, sp := range gd.Specs {
+					ts, ok := sp.(*ast.TypeSpec)
+					if !ok {
+						continue
+					}
+					switch ts.Name.Name {
+					case "MsgProposeVersions", "MsgAcceptVersion", "MsgRefuse", "MsgQueryReply", "VersionMismatchError", "DecodeError", "RefusedError":
+					default:
+						continue
+					}
+					st, ok := ts.Type.(*ast.StructType)
+					if !ok {
+						continue
+					}
+					for _, fl := range st.Fields.List {
+						for _, nm := range fl.Names {
+							if !firstFT {
+								l.pf(",\n")
+							}
+							firstFT = false
+							l.pf("  (%q, %q, %q)", ts.Name.Name, nm.Name, g2ExprString(fl.Type))
+						}
+					}
+				}
+			}
+		}
+		l.pf("]\n")
+		// the FinishedFunc callback type
+		for _, f := range p.files {
+			for _, d := range f.Decls {
+				if gd, ok := d.(*ast.GenDecl); ok {
+					for _, sp := range gd.Specs {
+						if ts, ok := sp.(*ast.TypeSpec); ok && ts.Name.Name == "FinishedFunc" {
+							l.pf("def finishedFuncType : String := %q\n", g2ExprString(ts.Type))
+						}
+					}
+				}
+			}
+		}
 		l.pf("end GV.Gen.HandshakeSends\n")
 	})
 }
